@@ -702,7 +702,7 @@ func init() {
 		return p.bigStore(a[0], p.bigRsh(p.bigLoad(a[1]), a[2].(*Term)))
 	})
 	reg(B+"SetBytes", func(p *Path, fn *ssa.Function, a []Value) Value {
-		bs := p.sliceBytes(a[1].(SliceV))
+		bs := p.bigEndianBytes(a[1]) // symslice.go: also accepts a symbolic-window slice
 		return p.bigStore(a[0], p.bigFromBytes(bs))
 	})
 	reg(B+"Bytes", func(p *Path, fn *ssa.Function, a []Value) Value {
